@@ -5,7 +5,7 @@ from vf.props import common as C
 def osm_conds(fn, tier, label, timeout=900):
     conds = []
     graphs = (0, 1)
-    n_pairs = 8 if tier == "quick" else 16
+    n_pairs = 9 if tier == "quick" else 16  # (pair 8: both positions on one link)
     for g in graphs:
         for p in range(n_pairs):
             conds.append(Cond("vf.h.h_osm", fn, case=g * 16 + p, timeout=timeout, env={"VF_SPEEDS": tier},
